@@ -383,6 +383,13 @@ def _now() -> Any:
 
 
 def _randint(lo: int, hi: int) -> Any:
+    replay = getattr(CUR, 'rand_replay', None)
+    if replay:
+        plo, phi, v = replay.pop(0)
+        assert (plo, phi) == (lo, hi), 'random draws of the two runs are not aligned'
+        CUR.rand_log.append((lo, hi, v))
+        _LAST_RAND_LOG.append((lo, hi, v))
+        return v
     v = CUR.ctx.rand(lo, hi)
     CUR.rand_log.append((lo, hi, v))
     _LAST_RAND_LOG.append((lo, hi, v))
@@ -460,9 +467,12 @@ def install_stubs() -> None:
     _installed = True
 
 
-def begin(ctx: Any, start_ms: Any) -> FakeLoop:
-    """Start one execution (one symbolic path or one replay): fresh loop, fresh random log."""
+def begin(ctx: Any, start_ms: Any, rand_replay: Optional[List[Any]] = None) -> FakeLoop:
+    """Start one execution (one symbolic path or one replay): fresh loop, fresh random log.
+
+    rand_replay: draws (lo, hi, value) of an earlier run to hand out again in order ("identical seeds")."""
     install_stubs()
+    CUR.rand_replay = list(rand_replay) if rand_replay else None  # type: ignore[attr-defined]
     loop = FakeLoop(start_ms)
     CUR.loop = loop
     CUR.ctx = ctx
